@@ -959,7 +959,18 @@ func scheduleDependent(s *StepObs) bool {
 	case "create", "lambda":
 		// the deferred loop over processingCommits (a Go map) stops at the nil entry: which
 		// other entries were committed before it depends on map order
-		return strings.Contains(s.Hit, "wal/Log/create-processing") && len(s.Op.Plan) > 1
+		if strings.Contains(s.Hit, "wal/Log/create-processing") && len(s.Op.Plan) > 1 {
+			return true
+		}
+		// run-and-wait: the closures of the created workloads run concurrently; a wildcard-addressed fault in
+		// their removal hits whichever closure gets there first (the model runs them in message order)
+		if s.Op.Kind == "lambda" && s.Op.Count > 1 {
+			switch s.Fault.Method {
+			case "GetWorkloads", "SetNodeResourceUsage", "RemoveWorkload", "VirtualizationRemove":
+				return true
+			}
+		}
+		return false
 	case "remove", "dissociate":
 		// the per-node tasks compete for the same pod lock
 		return nodesOf(s.Op.IDs) > 1 && (s.Fault.Method == "CreateLock" || s.Fault.Method == "Lock")
